@@ -73,7 +73,7 @@ PROPS = {
                                       'DW.C13_zeroize_inert', 'DW.C13_forgetDiscr'],
                 enums=['discriminants', 'incomparable', 'foreign'], configs_quick=ALL_CONFIGS, cross_config=True, design='7/C13'),
     'C14': dict(tables=True, traits=None, part='all', theorems=['DW.C14_no_method_calls', 'DW.C14_core_paths_rooted', 'DW.C14_trait_path', 'DW.C14_crate_option', 'DW.C14_fn_paths_rooted',
-                                                'DW.C14_simple_distinct', 'DW.C14_field_vs_simple', 'DW.C14_self_vs_other', 'DW.C14_binders_fresh', 'DW.C14_crate_anywhere', 'DW.C14_vocabulary', 'DW.C14_vocabulary_rejects', 'DW.C14_scope_words'],
+                                                'DW.C14_simple_distinct', 'DW.C14_field_vs_simple', 'DW.C14_self_vs_other', 'DW.C14_binders_fresh', 'DW.C14_crate_anywhere', 'DW.C14_vocabulary', 'DW.C14_vocabulary_rejects', 'DW.C14_scope_words', 'DW.C14_scope_dependence_witness'],
                 enums=['debug', 'zeroize', 'names'], configs_quick=['default', 'zod', 'safe'], stage1=True, diagnostics=True, design='7/C14'),
     'C15': dict(tables=True, traits=[], outcome='message', theorems=['DW.C15_incomparable_total', 'DW.C15_incomparable_needs_partial', 'DW.C15_incomparable_not_both',
                                                         'DW.C15_default_unique', 'DW.C15_default_needs_derive', 'DW.C15_union_traits',
